@@ -123,18 +123,32 @@ class Z3Alg:
 
     def const(self, fr):
         if isinstance(fr, Fraction):
+            if fr.denominator == 1:
+                return z3.IntVal(fr.numerator)     # Int mixes with Real by coercion; keeps index arithmetic integral
             return z3.RealVal(fr)
         if isinstance(fr, int):
-            return z3.RealVal(fr)
+            return z3.IntVal(fr)
         return fr
+
+    def truediv(self, a, b):
+        a, b = self._num(a), self._num(b)
+        if z3.is_int(a):
+            a = z3.ToReal(a)
+        if z3.is_int(b):
+            b = z3.ToReal(b)
+        return a / b
 
     def cconst(self, z):
         raise NotImplementedError("complex constants under the z3 algebra")
 
     @staticmethod
     def _num(a):
-        if isinstance(a, (int, Fraction)):
-            return z3.RealVal(a)
+        if isinstance(a, bool):
+            return z3.BoolVal(a)
+        if isinstance(a, int):
+            return z3.IntVal(a)
+        if isinstance(a, Fraction):
+            return z3.IntVal(a.numerator) if a.denominator == 1 else z3.RealVal(a)
         return a
 
     def cmp(self, op, a, b):
@@ -150,8 +164,17 @@ class Z3Alg:
         a = self._num(a)
         return z3.If(a >= 0, a, -a)
 
+    def vdot(self, a, b):
+        f = self.ctx.ufun("vdot", ["vec", "vec"], "real")
+        t = f.term(a.t, b.t)
+        if a.t.eq(b.t):
+            self.ctx.assume(t >= 0, silent=True)
+        return X(t)
+
     def sqrt(self, a):
         a = self._num(a)
+        if z3.is_int(a):
+            a = z3.ToReal(a)
         r = self.ctx.fresh("sqrt", "real")
         self.ctx.assume(z3.And(r.v >= 0, r.v * r.v == a), silent=True)
         return r.v
@@ -177,6 +200,13 @@ class Z3Alg:
             tv = f.term(v_)
             self.ctx.assume(z3.And(tv >= 0, t == z3.If(s_ >= 0, s_, -s_) * tv), silent=True)
         return X(t)
+
+    def symbolic_array(self, shape):
+        """np.empty / np.zeros with a symbolic leading dimension: rows are abstract vectors (2-D) or reals (1-D)"""
+        if isinstance(shape, (tuple, list)) and len(shape) == 2:
+            return self.ctx.symarr("arr", "vec", shape[0])
+        n = shape[0] if isinstance(shape, (tuple, list)) else shape
+        return self.ctx.symarr("arr", "real", n)
 
     def to_float(self, v):
         v = z3.simplify(v)
@@ -208,6 +238,8 @@ class AV:
     def __add__(self, o):
         if isinstance(o, AV):
             return AV(self.ctx, self.ctx.vadd(self.t, o.t))
+        if isinstance(o, (X, int, float)):
+            return self.sadd(o)
         return NotImplemented
 
     __radd__ = __add__
@@ -236,6 +268,79 @@ class AV:
         return self.ctx.branch(self.t == o.t)
 
     __hash__ = None
+
+    # ---- generic elementwise operations: uninterpreted (EUF keeps determinism) ----------------
+    def _uf(self, name, *args):
+        sorts, terms = [], []
+        for a in args:
+            if isinstance(a, AV):
+                sorts.append(self.ctx.Vec)
+                terms.append(a.t)
+            else:
+                sorts.append(z3.RealSort())
+                t = Z3Alg._num(val(a))
+                if z3.is_int(t):
+                    t = z3.ToReal(t)
+                terms.append(t)
+        f = z3.Function("v_" + name, *sorts, self.ctx.Vec)
+        return AV(self.ctx, f(*terms))
+
+    def __truediv__(self, s):
+        if isinstance(s, AV):
+            return self._uf("div", self, s)
+        sv = Z3Alg._num(val(s))
+        return AV(self.ctx, self.ctx.smul(1 / sv, self.t))
+
+    def __rtruediv__(self, s):
+        return self._uf("rdiv", s, self)
+
+    def vabs(self):
+        return self._uf("abs", self)
+
+    def sadd(self, s):
+        return self._uf("sadd", s, self)
+
+    @property
+    def size(self):
+        return X(z3.Int("dim"))
+
+    def __getitem__(self, k):
+        f = z3.Function("v_get", self.ctx.Vec, z3.IntSort(), z3.RealSort())
+        kk = zv(k)
+        return X(f(self.t, kk))
+
+
+class SymArr:
+    """numpy array of symbolic length: z3 Array(Int -> elem); elem in {'real','vec'}."""
+    _pyvc_symbolic = True
+
+    def __init__(self, ctx, term, size, elem):
+        self.ctx, self.t, self.n, self.elem = ctx, term, size, elem
+
+    @property
+    def size(self):
+        return X(self.n)
+
+    @property
+    def shape(self):
+        return (X(self.n),)
+
+    def _idx(self, i):
+        if isinstance(i, int):
+            return (self.n + i) if i < 0 else z3.IntVal(i)
+        t = zv(i)
+        return t
+
+    def __getitem__(self, i):
+        r = z3.Select(self.t, self._idx(i))
+        return AV(self.ctx, r) if self.elem == "vec" else X(r)
+
+    def __setitem__(self, i, v):
+        vt = v.t if isinstance(v, AV) else Z3Alg._num(val(v))
+        self.t = z3.Store(self.t, self._idx(i), vt)
+
+    def copy(self):
+        return SymArr(self.ctx, self.t, self.n, self.elem)
 
 
 class GhostList:
@@ -380,6 +485,14 @@ class Ctx:
         self.inputs[name] = v.t
         return v
 
+    def symarr(self, name, elem, size=None):
+        n = self.fresh(name + "_len", "int").v if size is None else zv(size)
+        es = self.Vec if elem == "vec" else z3.RealSort()
+        a = z3.Const(name if self.counter.get("arr:" + name, 0) == 0 else "%s!%d" % (name, self.counter["arr:" + name]),
+                     z3.ArraySort(z3.IntSort(), es))
+        self.counter["arr:" + name] = self.counter.get("arr:" + name, 0) + 1
+        return SymArr(self, a, n, elem)
+
     def boolean(self, name):
         b = self.fresh(name, "bool")
         self.inputs[name] = b
@@ -516,6 +629,9 @@ class Ctx:
             if spec.get("variant"):
                 st["variant0"] = spec["variant"](self, _V(loc, K))
             return True
+        if spec.get("on_backedge"):
+            for nm, c in _named(spec["on_backedge"](self, _V(loc, K))):
+                self.check("%s#loop%s.step[%s]" % (self.ex.fn_label, K, nm), c)
         # back edge: re-establish the invariant; then the guard is evaluated once more so that the
         # body-invariant (states in which the body starts) can be re-established as well
         inv = spec["invariant"](self, _V(loc, K))
@@ -536,10 +652,17 @@ class Ctx:
         for nm, c in _named(spec["body_invariant"](self, _V(loc, K))):
             self.check("%s#loop%s.body-init[%s]" % (self.ex.fn_label, K, nm), c)
 
-    def loop_exit(self, K):
+    def loop_exit(self, K, loc=None):
         """guard evaluated to False"""
         if self.loop_state[K]["phase"] == 2:
             raise StopPath()
+        spec = self.ex.loop_specs[K]
+        if spec.get("at_exit") and loc is not None:
+            for nm, c in _named(spec["at_exit"](self, _V(loc, K))):
+                self.check("%s#loop%s.exit[%s]" % (self.ex.fn_label, K, nm), c)
+            if spec.get("stop_after"):
+                self.reached("%s#loop%s.exit" % (self.ex.fn_label, K))
+                raise StopPath()
 
     def loop_body(self, K, loc):
         """guard evaluated to True: the body is about to start"""
@@ -586,6 +709,8 @@ _MISSING = object()
 def _infer_type(cur):
     if isinstance(cur, AV):
         return "vec"
+    if isinstance(cur, SymArr):
+        return lambda ctx, n, c: ctx.symarr(n + "@h", c.elem, c.n)
     if isinstance(cur, bool):
         return "bool"
     if isinstance(cur, X):
@@ -835,7 +960,7 @@ class _Cutter(ast.NodeTransformer):
             test = ast.Compare(left=ast.Name(id=idx, ctx=ast.Load()), ops=[ast.Lt()],
                                comparators=[ast.Attribute(value=ast.Name(id=rng, ctx=ast.Load()), attr="hi", ctx=ast.Load())])
             body.append(ast.If(test=ast.UnaryOp(op=ast.Not(), operand=test),
-                               body=[ast.Expr(value=_call("loop_exit", Kc)), ast.Break()], orelse=[]))
+                               body=[ast.Expr(value=_call("loop_exit", Kc, _locals())), ast.Break()], orelse=[]))
             body.append(ast.Expr(value=_call("loop_body", Kc, _locals())))
             body.append(ast.Assign(targets=[ast.Name(id=node.target.id, ctx=ast.Store())],
                                    value=ast.Name(id=idx, ctx=ast.Load())))
@@ -844,7 +969,7 @@ class _Cutter(ast.NodeTransformer):
                                                    right=ast.Constant(value=1))))
         else:
             body.append(ast.If(test=ast.UnaryOp(op=ast.Not(), operand=node.test),
-                               body=[ast.Expr(value=_call("loop_exit", Kc)), ast.Break()], orelse=[]))
+                               body=[ast.Expr(value=_call("loop_exit", Kc, _locals())), ast.Break()], orelse=[]))
             body.append(ast.Expr(value=_call("loop_body", Kc, _locals())))
         body.extend(node.body)
         loop = ast.While(test=_call("loop_head", Kc, _locals()), body=body, orelse=[])
